@@ -172,7 +172,7 @@ Silent ==
      \/ \E p \in Pipe : Requeue(p) /\ UNCHANGED <<res, got>>
      \/ \E x \in asyncRs : ResendRun(x[1], x[2]) /\ UNCHANGED <<res, got>>
      \/ \E tm \in timers : tm.due <= e.t /\ (FireResend(tm) \/ FireSend(tm) \/ FireRecv(tm)) /\ UNCHANGED <<res, got>>
-     \/ \E t \in Thread : \E r \in {"ok", "ErrClosed", "ErrNoPeers", "ErrSendTimeout"} :
+     \/ \E t \in Thread : \E r \in {"ok", "ErrClosed", "ErrNoPeers", "ErrSendTimeout", "ErrCanceled"} :
           /\ SendWake(t, r)
           /\ res' = [res EXCEPT ![t] = r]
           /\ UNCHANGED got
@@ -190,6 +190,7 @@ TSpec == TInit /\ [][TNext]_allvars
 TInv ==
   /\ MappingSound /\ ReplyIsCurrent /\ DeliveredIsCurrent /\ AtMostOneReply
   /\ QueuedIsLive /\ ReadyNotBusy /\ ReadyDistinct /\ ClosedIsEmpty
+  /\ NoOrphan /\ RetryArmed /\ BlockedForAReason
 
 \* action properties of Req.tla, evaluated as a constraint on the step
 TAct ==
